@@ -121,6 +121,7 @@ type c19World struct {
 	bySlot  map[uint64]*gBlock
 	withG   *MultiEpoch
 	without *MultiEpoch
+	onlyB   *MultiEpoch // only the SECOND epoch loaded (no address index): ranges that start in an epoch that is not served
 	closers []func()
 	// does a filter message with an absent optional flag panic on this tree? (probed once, on the scan path,
 	// where the panic can be recovered; on the index path the same dereference happens inside a goroutine and
@@ -285,7 +286,7 @@ func c19Build(dir string, o c19WorldOpts) (*c19World, error) {
 		tail += 100
 	}
 	gb := genEpoch(rng, dir, genOpts{Epoch: ea + 1, NBlocks: nb, MaxTx: maxTx, SkipPct: skip, LoadedPct: loaded, FramePct: 8,
-		NKeys: c19NUniverse, KeySeedBase: base})
+		NKeys: c19NUniverse, KeySeedBase: base, FirstBlockAtStart: true})
 	w.epochs = append(w.epochs, gb)
 	for _, k := range w.epochs[0].Keys {
 		w.id(k.PublicKey())
@@ -341,6 +342,10 @@ func c19Build(dir string, o c19WorldOpts) (*c19World, error) {
 			return nil, fmt.Errorf("epoch %d: address index loaded although not configured", ge.Epoch)
 		}
 		w.without.AddEpoch(ge.Epoch, no.Ep)
+		if ge == gb {
+			w.onlyB = NewMultiEpoch(&Options{EpochSearchConcurrency: 2})
+			w.onlyB.AddEpoch(ge.Epoch, no.Ep)
+		}
 		e1, e2 := le.Ep, no.Ep
 		w.closers = append(w.closers, func() { e1.Close(); e2.Close() })
 	}
@@ -481,6 +486,69 @@ func (w *c19World) probeBefore() (bool, error) {
 		return gotAbove == 0, nil
 	}
 	return false, fmt.Errorf("no account with entries on both sides of the probe slot")
+}
+
+// unloadedEpochPhase: a server that serves only the second epoch; ranges that start inside the first (not served) epoch
+// and reach into the second.  Every archived block / transaction of the served epoch inside the range must be sent —
+// in particular the block at the very first slot of the epoch.
+func (w *c19World) unloadedEpochPhase(s *zz.Session) {
+	if w.onlyB == nil || len(w.epochs) < 2 {
+		return
+	}
+	gb := w.epochs[1]
+	L := gb.Epoch * c19EpochLen
+	last := gb.Blocks[len(gb.Blocks)-1].Slot
+	for _, lo := range []uint64{L - 40, L - 5, L - 1, L, L + 1} {
+		for _, hi := range []uint64{L, L + 1, L + 9, min(last, L+55)} {
+			if hi < lo || hi-lo > maxSlotsToStream {
+				continue
+			}
+			hi := hi
+			var wantB []uint64
+			wantTx := 0
+			for _, b := range gb.Blocks {
+				if b.Slot >= lo && b.Slot <= hi {
+					wantB = append(wantB, b.Slot)
+					wantTx += len(b.Txs)
+				}
+			}
+			line := fmt.Sprintf("# only epoch %d loaded: range %d..%d (epoch %d is not served)", gb.Epoch, lo, hi, gb.Epoch-1)
+			got := zz.Guard(func() string {
+				rec := &recBlockStream{ctx: context.Background()}
+				if err := w.onlyB.StreamBlocks(&old_faithful_grpc.StreamBlocksRequest{StartSlot: lo, EndSlot: &hi}, rec); err != nil {
+					return "err " + err.Error()
+				}
+				var ss []uint64
+				for _, m := range rec.msgs {
+					ss = append(ss, m.Slot)
+				}
+				return fmt.Sprint(ss)
+			})
+			s.Count("unloaded-epoch-phase:blocks")
+			if got != fmt.Sprint(wantB) {
+				s.Violation(fmt.Sprintf("StreamBlocks %d..%d on a server that serves only epoch %d sent slots %s; the archived blocks of that epoch in the range are %v", lo, hi, gb.Epoch, got, wantB),
+					"C19:blocks:range-starts-in-unserved-epoch", s.Replay([]string{line}))
+			}
+			gotTx := zz.Guard(func() string {
+				rec := &recTxStream{ctx: context.Background()}
+				if err := w.onlyB.StreamTransactions(&old_faithful_grpc.StreamTransactionsRequest{StartSlot: lo, EndSlot: &hi}, rec); err != nil {
+					return "err " + err.Error()
+				}
+				n := 0
+				for _, m := range rec.msgs {
+					if m.Transaction != nil {
+						n++
+					}
+				}
+				return fmt.Sprint(n)
+			})
+			s.Count("unloaded-epoch-phase:transactions")
+			if gotTx != fmt.Sprint(wantTx) {
+				s.Violation(fmt.Sprintf("StreamTransactions %d..%d (no filter) on a server that serves only epoch %d sent %s transactions; %d are archived in the range", lo, hi, gb.Epoch, gotTx, wantTx),
+					"C19:transactions:range-starts-in-unserved-epoch", s.Replay([]string{line}))
+			}
+		}
+	}
 }
 
 // runTx executes one streamtx op on the real code
@@ -1247,6 +1315,7 @@ func TestVerifC19(t *testing.T) {
 			}
 		} else {
 			r.generate(zz.NewRNG(wo.seed*31+uint64(wo.variant)+5), wo.tier == "thorough")
+			w.unloadedEpochPhase(s)
 		}
 		s.Add("observation: messages whose envelope slot field differs from the transaction's slot", w.slotFieldWrong)
 		w.close()
